@@ -151,6 +151,7 @@ Record ccase := {
   cc_mode : N; cc_wellformed : bool; cc_grace : Z; cc_fr : framing;
   cc_tmo : timeouts; cc_treq : Z; cc_tresp : Z;
   cc_weak : bool;            (* the dialled connection carries TLS: its plaintext operations are hidden *)
+  cc_cipher_wn : N;          (* number of writes (TLS records or more) the proxy issued on it in the tunnel phase *)
   cc_cipher_w : N; cc_cipher_r : N;   (* bytes of ciphertext the proxy wrote to / read from it over the whole connection *)
   cc_early : list N; cc_skip : list N; cc_kept : list N;
   cc_trace : option (list label); cc_obs : obs
@@ -206,23 +207,35 @@ Definition skip_ok (mode : N) (fr : framing) (avail skip : N) : bool :=
 Definition cinit (c : ccase) : state :=
   let '(r, w) := case_deadlines (cc_tmo c) (cc_treq c) (cc_tresp c) in init (cc_early c) (cc_skip c) (cc_kept c) r w.
 
-Definition crun (c : ccase) (tr : list label) : option state :=
+(* the run of the model for a case; for weak inclusion also the number of writes to the dialled
+   connection the completion had to insert (drain and deliveries of the client-to-target direction) *)
+Definition is_up_write (l : label) : bool :=
+  match l with LDrain _ | LD CT (Deliver _) => true | _ => false end.
+Definition crun2 (c : ccase) (tr : list label) : option (state * N) :=
   if cc_weak c
-  then (if forallb observable tr then wrun (tables_shape (cc_grace c)) (cinit c) tr else None)
-  else run (tables_shape (cc_grace c)) (cinit c) tr.
+  then (if forallb observable tr
+        then match wrunf (tables_shape (cc_grace c)) (cinit c) tr with
+             | Some (full, s) => Some (s, N.of_nat (length (filter is_up_write full)))
+             | None => None
+             end
+        else None)
+  else match run (tables_shape (cc_grace c)) (cinit c) tr with Some s => Some (s, 0) | None => None end.
+Definition crun (c : ccase) (tr : list label) : option state :=
+  match crun2 c tr with Some (s, _) => Some s | None => None end.
 
 (* TLS only adds to what it carries: the ciphertext written covers the plaintext delivered *)
-Definition cipher_ok (c : ccase) (s : state) : bool :=
+Definition cipher_ok (c : ccase) (s : state) (upw : N) : bool :=
   implb (cc_weak c) ((len (d_rcv (s_ct s)) <=? cc_cipher_w c)
-                     && (len (d_rcv (s_tc s)) + len (d_buf (s_tc s)) <=? cc_cipher_r c)).
+                     && (len (d_rcv (s_tc s)) + len (d_buf (s_tc s)) <=? cc_cipher_r c)
+                     && (upw <=? cc_cipher_wn c)).   (* every plaintext write is at least one write of records *)
 
 Definition cmodel_ok (c : ccase) : bool :=
   cc_wellformed c && skip_ok (cc_mode c) (cc_fr c) (len (o_sent (o_tc (cc_obs c)))) (len (cc_skip c)) &&
   match cc_trace c with
   | None => false
   | Some tr =>
-    match crun c tr with
-    | Some s => final_ok (cc_mode c) (cc_grace c) s (cc_obs c) && cipher_ok c s
+    match crun2 c tr with
+    | Some (s, upw) => final_ok (cc_mode c) (cc_grace c) s (cc_obs c) && cipher_ok c s upw
     | None => false
     end
   end.
